@@ -44,7 +44,8 @@ def floors(tier):
             "valid": 3000, "invalid": 3000,
             "keyword_cells_both_outcomes": 100,   # of 107 (draft, keyword) cells
             "distinct_nontrivial": 10000,
-            "calibration_cases": 2000, "consulting_pairs_enumerated": 500, "shape_pairs_enumerated": 2000}
+            "calibration_cases": 2000, "consulting_pairs_enumerated": 500, "shape_pairs_enumerated": 2000,
+            "pattern_tables_enumerated": 3000}
 
 
 def classify(case, detail):
@@ -197,6 +198,26 @@ def _core(ctx):
                     ctx.count("shape_pairs_enumerated")
                     for inst in SHAPE_INSTANCES:
                         compare(ctx, d, s, inst, gate=False, tag="shape-pair")
+    # every ordered pair of the pattern pool as ONE patternProperties table (groups, alternations and back-references
+    # side by side: each pattern is searched on its own), with and without additionalProperties
+    from vf.gen.pools import PATTERNS, STRINGS
+    prng = random.Random(31337)
+    keysets = [prng.sample(STRINGS, 4) for _ in range(5)] + [["abab", "aa", "aba", "b1"], ["ab", "bbb", "b1b1", ""]]
+    for d in impl.DRAFTS:
+        for pa in PATTERNS:
+            for pb in PATTERNS:
+                if pa == pb:
+                    continue
+                idx += 1
+                if not ctx.mine(idx):
+                    continue
+                for ap in (False, {"type": "null"}, None):
+                    s = {"patternProperties": {pa: {"type": "integer"}, pb: {"type": ["integer", "null"]}}}
+                    if ap is not None:
+                        s["additionalProperties"] = ap
+                    ctx.count("pattern_tables_enumerated")
+                    for ks in keysets:
+                        compare(ctx, d, s, {k: (1 if i % 2 else None) for i, k in enumerate(ks)}, gate=False, tag="pattern-table")
     if ctx.tier == "thorough":
         for d in impl.DRAFTS:
             g = SchemaGen(random.Random(777 + d), d, maxdepth=2)
